@@ -127,6 +127,6 @@ def run(ctx):
         "digests and signatures are injective: a damaged hash/signature/encoding is assumed different from every honest one (a bit-flipped signature recovers to nobody's key); the real digests, keys and signatures come from crypto/sha256 and the repository's secp256k1/eth_tx libraries used as generators of inputs",
         "the chain id is made height-dependent by setting LocalChainConfig.OriginalChainId=9400 and Proposal001Block=100 after boot (dev config has one id at all heights)",
         "the honest Ethereum wrapper is the one eth_tx.ConvertTx derives on the submitting node; the driver checks that it declares the nonce/sender/target it chose for the payload",
-        "a malleated but valid signature (s -> n-s) is offered but not judged; rejection of a transaction whose only change is in an unauthenticated field would be a conformance mismatch, not a violation",
+        "the malleated twin (r, n-s, v^1) of the signature of a native transaction is a change of the signature and must be rejected (the statement's last sentence); the Sign field of a wrapped Ethereum transaction is not authenticated and may change freely; rejection of a transaction whose only change is in an unauthenticated field would be a conformance mismatch, not a violation",
         "two-field changes that keep the concatenated hash preimage unchanged (field boundary shifts) are outside the statement's single-field quantifier",
     ])
